@@ -143,10 +143,26 @@ fn ioerr(kind: std::io::ErrorKind, what: &'static str) -> std::io::Error {
 
 impl Client {
     async fn connect(&mut self) -> std::io::Result<()> {
-        let listener = tokio::net::TcpListener::bind("127.0.0.1:0").await?;
+        // one listener per process (the histories of a process run one after the other): a listener per connection
+        // uses up the ephemeral ports of a busy machine
+        static LISTENER: OnceLock<tokio::net::TcpListener> = OnceLock::new();
+        let listener = match LISTENER.get() {
+            Some(l) => l,
+            None => {
+                let l = tokio::net::TcpListener::bind("127.0.0.1:0").await?;
+                LISTENER.get_or_init(|| l)
+            }
+        };
         let addr = listener.local_addr()?;
         let client = tokio::net::TcpStream::connect(addr).await?;
-        let (server_end, peer) = listener.accept().await?;
+        let local = client.local_addr()?;
+        let (server_end, peer) = loop {
+            // (a stale connection attempt of an earlier, failed exchange is skipped)
+            let (s, peer) = listener.accept().await?;
+            if peer == local {
+                break (s, peer);
+            }
+        };
         let desc = self.desc.clone();
         tokio::spawn(async move {
             let _ = kvarn::handle_connection(kvarn::Incoming::Tcp(server_end), peer, desc, || true).await;
